@@ -112,7 +112,12 @@ static int before(int kind, size_t len, const char *p1, const char *p2, long *id
 	}
 	if (pausing) wait_ack();
 	if (((faultable_mask >> kind) & 1) &&
-	    (i == fault_at || i == fault_at2 || (fault_persist && fault_at >= 0 && i >= fault_at))) {
+	    (i == fault_at || i == fault_at2 ||
+	     (fault_persist == 1 && fault_at >= 0 && i >= fault_at) ||
+	     /* persist 2: "the disk stays full" - from fault_at on every operation that needs space fails,
+	      * operations that need none (open of an existing file, close, rename, unlink) keep working */
+	     (fault_persist == 2 && fault_at >= 0 && i >= fault_at &&
+	      (kind == K_WRITE || kind == K_TRUNC || kind == K_CREATE || kind == K_MKDIR)))) {
 		errno = fault_errno;
 		return 1;
 	}
